@@ -307,6 +307,10 @@ def check_solve(iname, sysi, dtlocal, mspec, res=None):
             # a run with a snapshot returns only the snapshot: the state after the 2 full iterations comes from a second run without save times
             o = cls(mesh, disc).solve(f, 0.7, ts, stop={"maxit": 2, "tottime": 1e30}, directives=direc)
             o2 = cls(mesh, disc).solve(f, 0.7, stop={"maxit": 2}, directives=direc)
+            legacy = []
+            if not dtlocal and np.isfinite(dt0):
+                # the older driver of the same integrator classes (global step only): two save times off the step grid
+                legacy = list(cls(mesh, disc).solve_legacy(f, 0.7, [1.4 * dt0, 2.3 * dt0]))
     except core.CallTimeout:
         return [("C03/solve/burgers/zero-state/infinite-time-step" if zero_burgers else site + "/non-termination", "solve from the uniform state %r did not return" % (st,))]
     except Exception as e:
@@ -314,7 +318,7 @@ def check_solve(iname, sysi, dtlocal, mspec, res=None):
     if res is not None:
         res.transitions += 1
     tol = 2e-6 if impl else 256 * EPS
-    for g in list(o.solutions) + list(o2.solutions):
+    for g in list(o.solutions) + list(o2.solutions) + legacy:
         for qi in range(model.neq):
             want = np.asarray(q[qi], float)
             sc = max(np.abs(np.asarray(x)).max() for x in q) + 1e-300
